@@ -4,6 +4,7 @@ package packcase
 
 import (
 	"errors"
+	"os"
 	"path/filepath"
 	"strings"
 
@@ -21,6 +22,9 @@ type Case struct {
 	Opts   pk.Opts  `json:"opts"`
 	Nested bool     `json:"nested,omitempty"` // external directories contain links of their own
 	Rules  *string  `json:"rules,omitempty"`
+	// the source is named through a symlink with a relative target, from a working
+	// directory in which that relative target names another directory (with outside content)
+	RootLink bool `json:"root_link,omitempty"`
 }
 
 type Run struct {
@@ -56,7 +60,26 @@ func Execute(c Case) (*Run, error) {
 		cleanup()
 		return nil, err
 	}
-	run.Slug, run.Meta, run.Err, run.Panic = pk.PackBytes(c.Opts, run.Vars, run.Src)
+	srcArg := run.Src
+	if c.RootLink {
+		decoy := fsx.Tree{
+			{Path: "links/lnrel", Kind: "symlink", Target: "../src"},
+			{Path: "other/src/DECOY", Kind: "file", Content: "OUT:decoy", Mode: 0644, Sec: 1400000010},
+			{Path: "other/sub", Kind: "dir", Mode: 0755},
+		}
+		if err := fsx.Materialise(r, decoy, run.Vars); err != nil {
+			cleanup()
+			return nil, err
+		}
+		old, _ := os.Getwd()
+		if err := os.Chdir(filepath.Join(r, "other", "sub")); err != nil {
+			cleanup()
+			return nil, err
+		}
+		defer os.Chdir(old)
+		srcArg = filepath.Join(r, "links", "lnrel")
+	}
+	run.Slug, run.Meta, run.Err, run.Panic = pk.PackBytes(c.Opts, run.Vars, srcArg)
 	var ise *slug.IllegalSlugError
 	run.Illegal = run.Err != nil && errors.As(run.Err, &ise)
 	if run.Err == nil && run.Panic == nil {
@@ -147,5 +170,6 @@ func Gen(t *rapid.T, outLinks bool) Case {
 		}
 		c.Nested = rapid.Bool().Draw(t, "nested")
 	}
+	c.RootLink = rapid.IntRange(0, 5).Draw(t, "rootlink") == 0
 	return c
 }
